@@ -448,4 +448,21 @@ theorem allocMem_spec (cfg : Cfg) (nb : Nat) {a : Arena} (h : WF a) (hinit : 0 <
       rw [abs_appendBuf hu fill hc' hsz, abs_withUnspec]
   · rw [if_neg hb] at hres; cases hres
 
+theorem runAllocs_nil (cfg : Cfg) (bases : List Nat) (a : Arena) : runAllocs cfg bases a [] = .ok a := by
+  cases bases <;> simp only [runAllocs]
+
+theorem runAllocs_cons (cfg : Cfg) (nb : Nat) (nbs : List Nat) (a : Arena) (q : Req) (qs : List Req) :
+    runAllocs cfg (nb :: nbs) a (q :: qs) =
+      match allocMem cfg nb a q.b q.zero q.fill with
+      | .ok (a1, _) => runAllocs cfg nbs a1 qs
+      | .error e => .error e := by
+  rw [runAllocs]
+  cases allocMem cfg nb a q.b q.zero q.fill with
+  | ok p => rfl
+  | error e => rfl
+
+theorem runAllocs_short (cfg : Cfg) (a : Arena) (q : Req) (qs : List Req) :
+    runAllocs cfg [] a (q :: qs) = .error .invalidArgument := by
+  simp only [runAllocs]
+
 end YaraModel.Arena
